@@ -1,6 +1,6 @@
 //! pv-gen-build <config> <out.rs> <file.thrift>...
 //! Runs the real pilota-build Builder (from /repo's working tree) on the given entry IDL files.
-//! config: plain | keep | split | keepsplit
+//! config: plain | keep | split | keepsplit | nocase (change_case(false))
 use std::path::PathBuf;
 
 fn main() {
@@ -15,6 +15,9 @@ fn main() {
     let mut b = pilota_build::Builder::thrift().ignore_unused(false);
     if cfg == "keep" || cfg == "keepsplit" {
         b = b.keep_unknown_fields(idls.clone());
+    }
+    if cfg == "nocase" {
+        b = b.change_case(false);
     }
     if cfg == "split" || cfg == "keepsplit" {
         b = b.split_generated_files(true);
